@@ -54,7 +54,7 @@ def start_guard(ctx):
                       f"start site ({what}) is reachable without passing the true edge of the readiness predicate")
 
 
-@rule("C01.READY-PRED", ["C01", "C11"], """the readiness predicate returns true only on paths on which: to_execute was read true,
+@rule("C01.READY-PRED", ["C01", "C11", "C07"], """the readiness predicate returns true only on paths on which: to_execute was read true,
       requesters[kind] is non-empty, unavailable_dependencies[Build] is empty and unavailable_dependencies[Service] is empty""", "K2", floor=4)
 def ready_pred(ctx):
     r = ctx.r
@@ -104,7 +104,7 @@ def ready_pred(ctx):
                             ok = True
                 if not ok:
                     missing.append(p)
-            ctx.check(not missing, f"{short(b.name)}/{nm}", [b.loc()], props=(["C01", "C11"] if "Service" in nm else ["C01"]), found=
+            ctx.check(not missing, f"{short(b.name)}/{nm}", [b.loc()], props=(["C01", "C11", "C07"] if "Service" in nm else ["C01", "C07"] if "unavailable" in nm else ["C01"]), found=
                       f"{len(missing)} of {len(true_paths_)} true-returning path(s) do not test `{nm}`; e.g. " + (" ".join(repr(e) for e in missing[0][:12]) if missing else ""),
                       detail=f"{len(paths)} paths, {len(true_paths_)} can return true")
 
@@ -433,7 +433,7 @@ def _classify_ok_site(r, body, bb, st, msg_kinds=None, actual="?"):
     return None, "not under a true `executed`, not under an empty pending set, not a foreign-kind reply"
 
 
-@rule("C01.OK-DISCIPLINE", ["C01", "C06", "C20"], """every construction of ActorInputMessage::Ok is one of: I1 announcement under a true
+@rule("C01.OK-DISCIPLINE", ["C01", "C06", "C20", "C07"], """every construction of ActorInputMessage::Ok is one of: I1 announcement under a true
       `executed`; I2 reply `actual: false` for a kind the actor does not execute; I3 aggregate forward under an empty pending set""", "K4", floor=3)
 def ok_discipline(ctx):
     r = ctx.r
@@ -473,6 +473,8 @@ def ok_discipline(ctx):
                     props = ["C01", "C20"]
                 elif b in r.helper_methods():
                     props = ["C01", "C06"]
+                elif r.is_role(r.actors(), vb):
+                    props = ["C01", "C07"]   # an executing actor acknowledging without `executed`: also after its execution failed
                 else:
                     props = ["C01"]
                 ctx.bad(inst, [site(b, bb)], f"unguarded readiness acknowledgement: {why}", props=props)
@@ -500,6 +502,18 @@ def flag_discipline(ctx):
         elif val == "false":
             # the body is a start marker by definition; it must not also be an invalidation notifier
             ctx.check(b.name not in inv, f"to_execute=false/{short(b.name)}", [site(b, bb)], "the invalidation notifier clears `to_execute`", props=["C01", "C08"])
+            # ... and it is only used to *start* an execution: clearing the flag anywhere else (e.g. when a run fails) forgets a change that arrived
+            # while the run was in flight
+            outside = []
+            for (cv, cbb, ct) in r.callers_of(b):
+                if r.is_role(r.actors(), cv) and r.actor_kinds(cv):
+                    if cbb not in readiness_guard(r, cv):
+                        outside.append(site(cv, cbb))
+                else:
+                    outside.append(site(cv, cbb))
+            ctx.check(not outside, f"to_execute=false-only-at-start/{short(b.name)}", outside[:4] or [site(b, bb)],
+                      "`to_execute` is cleared outside the start of an execution: an invalidation received during the run (the only record of it is this flag) is lost and the change is never built",
+                      props=["C06", "C01"])
         else:
             ctx.bad(f"to_execute=expr/{short(b.name)}", [site(b, bb)], "`to_execute` is written from a non-constant", props=["C01", "C08"])
     for (b, bb, st) in r.field_writes("executed"):
